@@ -72,6 +72,11 @@ def rule(key, dig, desc, kinds):
     # stab_google|g4_1_0: a google docstring with only a Returns section is read as prose
     if anyk("google") and not ps and any(e["ret"] for e in es):
         return "KF-RT-google-retonly"
+    # numpydoc_T|g5_1_5_0: a default without prose is not written (KF-RT-noprose-default); numpydoc/google then force the zero value
+    # on the entry because an earlier parameter had a default (KF-RT-np-force-default): True comes back as False
+    if anyk("numpydoc", "google") and any(not e["doc"] and e["default"] != ABSENT and any(p["default"] != ABSENT for p in ps[:i])
+                                           for i, e in enumerate(ps)):
+        return "KF-RT-np-force-default"
     if cfg.startswith("chain_"):
         # chain_A|g3_13_1_0 (class -> function): the class hop replaces the None default of a scalar-typed parameter by '' / 0
         if "class" in kinds[:-1] and any(e["default"] == NoneStr and e["typ"] in ("int", "str", "float", "bool") for e in ps):
